@@ -348,6 +348,23 @@ package app
 //@   ensures !held(p.logBuffer.mx) && bufWF(p.logBuffer)
 //@   assigns logged[*], observed[*], pclog.ProcessLogBuffer.buffer[*], heap(Elem.Str), acquires[*]
 
+// ---------- C11: output capture ----------
+//@ func (p *Process) checkElevatedProcOutput
+//@   param waitForPassCancelFn as cancelfunc
+//@   assigns p.passProvided, p.waitForPassCancelFn, cancelled[*], cancelCalls[*]
+
+// Every non-empty chunk the reader hands out - including a last one that comes without a trailing newline
+// together with io.EOF or another error - is passed to the handler exactly once, in order, with only its
+// trailing newline removed; the stream is reported done only after that.
+//@ func (p *Process) handleOutput
+//@   param handler as linehandler
+//@   param readyLogCancelFn as cancelcausefunc
+//@   ensures count: handled() - old(handled()) == chunks() - old(chunks())
+//@   ensures in-order: forall i int :: 0 <= i && i < chunks() - old(chunks()) ==> handledLine(old(handled()) + i) == trimSuffix(chunkLine(old(chunks()) + i), "\n")
+//@   ensures done: closed(done)
+//@   loop 1 invariant handled() - old(handled()) == chunks() - old(chunks()) && chunks() >= old(chunks())
+//@   loop 1 invariant forall i int :: 0 <= i && i < chunks() - old(chunks()) ==> handledLine(old(handled()) + i) == trimSuffix(chunkLine(old(chunks()) + i), "\n")
+
 // ======================= ProjectRunner =======================
 //@ define noLocks() bool = forall m ref :: !held(m)
 //@ define runnerWF(p *ProjectRunner) bool = p.runningProcesses != nil && p.doneProcesses != nil && p.runningProcesses != p.doneProcesses &&
